@@ -5,6 +5,7 @@
 -/
 import Model.Proto.SubLemmas
 import Model.Proto.SubOrder
+import Model.Proto.PubOrder
 import Model.Proto.Pub
 namespace Props.C06
 open Model Model.Proto
@@ -105,6 +106,15 @@ theorem pub_queue_room (p : OutPipe) (m : Msg) (x : Msg) (hi : p.inflight = some
 theorem recv_in_order_at_most_once (s : Sub.State) (hr : Sub.Reach s) :
     ∀ c ∈ s.ctxs, (c.got ++ c.q).Sublist c.seen ∧ c.seen.Sublist s.arrived :=
   Sub.recv_in_order_at_most_once s hr
+
+/-- PUB side, over every history of a PUB socket (publications, subscribers attaching and leaving, slow and failing
+    subscribers, queue-length changes): for every subscriber pipe, the copies its SendMsg completed, then the one in
+    progress, then the queued ones are, in order, part of what was offered to it — each published message reaches a
+    subscriber at most once and in the publisher's order; a copy is lost only by the queue-full drop (ghost histories
+    `offered` / `sent` of the pipe) -/
+theorem pub_per_subscriber_order (s : Pub.State) (h : Pub.Reach s) :
+    ∀ p ∈ s.pipes, (p.sent ++ p.inflight.toList ++ p.q).Sublist p.offered :=
+  Pub.per_subscriber_order s h
 
 /-- non-vacuity -/
 example : ({ id := 0, subs := [[1]], q := [[1, 2]], cap := 2, parked := [], closed := false } : Sub.Ctx).Inv := by
